@@ -172,18 +172,27 @@ def intColumn (what : String) (vals : List String) : Except String (List Int) :=
     | some i => .ok i
     | none => .error s!"bad {what}: {v}"
 
-/-- assemble rows from a chromosome column, coordinates and the typed extra columns -/
-def mkRows (cs : List String) (ss es : List Int) (extra : List (List Cell)) : List FRow :=
-  (List.range cs.length).map fun k =>
-    { chrom := cs.getD k "", s := ss.getD k 0, e := es.getD k 0,
-      cols := extra.map (fun col => col.getD k .na) }
+/-- assemble rows from a chromosome column, coordinates and the typed extra columns
+    (all columns have one entry per row) -/
+def mkRows : List String → List Int → List Int → List (List Cell) → List FRow
+  | [], _, _, _ => []
+  | c :: cs, ss, es, extra =>
+    { chrom := c, s := ss.headD 0, e := es.headD 0, cols := extra.map (fun col => col.headD .na) } ::
+      mkRows cs ss.tail es.tail (extra.map List.tail)
+
+def insertName (a : String) : List String → List String
+  | [] => [a]
+  | b :: t => if a ≤ b then a :: b :: t else b :: insertName a t
+
+/-- Python `sorted` on column names (insertion sort: structural, so `decide` can run it) -/
+def sortNames (l : List String) : List String := l.foldr insertName []
 
 /-- `GenomicArray.sort_columns`: required columns first, the others sorted by name.
     `req` = required columns beyond chromosome/start/end (`[]` for GenomicArray,
     `["gene","log2"]` for CopyNumArray). -/
 def sortColumns (req : List String) (t : FTab) : Except String FTab :=
   if !(req.all t.names.contains) then .error "ValueError: missing required columns" else
-  let extra := (t.names.filter (fun n => !req.contains n)).mergeSort (fun a b => decide (a ≤ b))
+  let extra := sortNames (t.names.filter (fun n => !req.contains n))
   let target := req ++ extra
   let idx := target.map (fun n => t.names.idxOf n)
   .ok { names := target,
